@@ -145,6 +145,41 @@ func (rc *rconn) do(args [][]byte, timeout time.Duration) (reps []reply, closed 
 	}
 }
 
+// pipeline writes several commands in one TCP segment (redcon then offers them to the handler as a
+// pipeline: server/util.go pipelineCommand turns consecutive SETs into one PLSET) and counts the replies
+// that arrive before the PING fence answers.
+func (rc *rconn) pipeline(cmds [][][]byte, timeout time.Duration) (nrep int, nerr int, closed bool, timedOut bool) {
+	rc.c.SetDeadline(time.Now().Add(timeout))
+	var b bytes.Buffer
+	for _, c := range cmds {
+		b.Write(encodeCmd(c))
+	}
+	if _, err := rc.c.Write(b.Bytes()); err != nil {
+		return 0, 0, true, false
+	}
+	// the fence goes in a second segment so that it is not part of the pipeline
+	time.Sleep(20 * time.Millisecond)
+	if _, err := rc.c.Write([]byte("*1\r\n$4\r\nPING\r\n")); err != nil {
+		return 0, 0, true, false
+	}
+	for {
+		r, err := rc.readReply()
+		if err != nil {
+			if ne, ok := err.(net.Error); ok && ne.Timeout() {
+				return nrep, nerr, false, true
+			}
+			return nrep, nerr, true, false
+		}
+		if r.kind == '+' && r.text == "PONG" {
+			return nrep, nerr, false, false
+		}
+		nrep++
+		if r.kind == '-' {
+			nerr++
+		}
+	}
+}
+
 // ---------- the live node ----------
 
 type liveNode struct {
